@@ -962,6 +962,10 @@ class Exec:
             if attr in info.fields:
                 return info.fields[attr]
             todo.extend(info.bases)
+        if self.lenient:
+            # changed code uses an attribute the contracts do not know: an untyped field (reads are unconstrained)
+            self.notes.append(f'lenient: attribute {ci.name}.{attr} has no declared type; treated as untyped')
+            return S.Any
         return None
 
     def set_item(self, o, k, v, st, desc):
@@ -986,6 +990,16 @@ class Exec:
             n = z3.Length(seq)
             new = z3.Concat(z3.Extract(seq, 0, i), z3.Unit(v.t), z3.Extract(seq, i + 1, n - i - 1))
             st.set_field('list', z3.Store(lst, a, new))
+            return
+        if ty.kind == 'any' and self.lenient:
+            # store into a container of unknown type: any list/dict/set content may have changed
+            self.notes.append(f'lenient: item store on an untyped value ({desc}) havocs all container content')
+            for fld in ('list', 'dom', 'val'):
+                newt = S.fresh('uk_' + fld, st.field(fld).sort())
+                st.set_field(fld, newt)
+                for ax in self.heap_axioms(fld, newt, st.next_ref):
+                    st.assume(ax)
+                self.register_epoch(newt, st.next_ref)
             return
         raise Unsupported(f'item store on {ty}: {desc}')
 
@@ -1233,7 +1247,9 @@ class Exec:
             if mc is not None:
                 return self.call_contract(mc, [o, k], {}, st, desc)
         if ty.kind == 'any':
-            # dynamic: dict with arbitrary keys, else unsupported
+            if self.lenient:
+                self.notes.append(f'lenient: subscript on an untyped value ({desc}) yields an unconstrained value')
+                return V(S.fresh('uk_item'), S.Any)
             raise Unsupported(f'subscript on untyped value: {desc}')
         raise Unsupported(f'subscript on {ty}: {desc}')
 
